@@ -97,6 +97,11 @@ def cases(draw):
             mm = [a, a + draw(st.floats(1, 10000))]
         else:
             mm = [None, draw(st.floats(1, 10000))]
+    if enc == "jpeg":
+        # the JPEG error bound is calibrated for smooth content: rescaling or
+        # a header slope turns the smooth ramp into saturated steps
+        mm = None
+        scaling = None
     return {
         "shape": shape, "layout": layout, "channels": nch, "stored": stored,
         "gz": draw(st.booleans()), "scaling": scaling,
@@ -244,6 +249,12 @@ def check_case(ctx, case):
     from neuroglancer_scripts import volume_reader
     d = ctx.tmpdir("vol")
     try:
+        if case["encoding"] == "jpeg" and (case["minmax"] or
+                                           case["scaling"]):
+            # outside the calibrated domain of the JPEG error bound (smooth
+            # content): no verdict
+            ctx.count("excluded_jpeg_rescaled")
+            return None
         raw = make_raw(case)
         path = os.path.join(d, "in.nii" + (".gz" if case["gz"] else ""))
         slope, inter = case["scaling"] or (None, None)
